@@ -22,3 +22,39 @@ def expected_tables(threads):
         tp[tid] = pid
         pn[pid] = name
     return tp, pn
+
+
+# RAW_VERSION3 (ktrace file as written by `ktrace`/CoreProfile; layout as the parser scans it)
+TAG_THREADMAP = b'\x00\x1d' + bytes(6)
+TAG_EVENTS = b'\x00\x1e' + bytes(6)
+TAG_MORE = b'\x00\x20' + bytes(6)
+TAGS = {
+    'dyld_modules': b'\x01\x80' + bytes(6), 'trace_codes': b'\x0f\x80' + bytes(6), 'processes': b'\x10\x80' + bytes(6),
+    'log_events': b'\x11\x80' + bytes(6), 'log_strings': b'\x12\x80' + bytes(6), 'kernel_extensions': b'\x05\x80' + bytes(6),
+    'images': b'\x04\x80\x00\x00\x01\x00\x00\x00',
+}
+
+
+def build_v3(threads, chunks, blocks, filler=b'stackshot-junk', gap=b'', aligned=True, chunk_gaps=None):
+    """threads: [(tid, pid, name)]; chunks: [[64-byte records]] (>= 1 chunk); blocks: [(kind, payload bytes)]"""
+    import plistlib
+    cpu = plistlib.dumps({'cpu': 1}, fmt=plistlib.FMT_BINARY)
+    hdr = struct.pack('<IIQIIQQIIIII', 0x55aa0300, 0, 0, 125, 3, 1000, 1600000000, 0, 0, 0, 0, 0x8002)
+    out = b'\x00\x03\xaa\x55' + hdr + struct.pack('<Q', len(cpu)) + cpu
+    out += bytes((-(len(out) - 4)) % 8)
+    out += bytes(4)
+    out += filler + b'stackshot_out_fl' + gap
+    tm = b''.join(struct.pack('<QI', t, p) + n.encode().ljust(20, b'\0')[:20] for t, p, n in threads)
+    out += TAG_THREADMAP + struct.pack('<Q', len(tm)) + tm
+    for i, recs in enumerate(chunks):
+        if i:
+            out += TAG_MORE + bytes(8)
+        if chunk_gaps:
+            out += chunk_gaps[i % len(chunk_gaps)]      # arbitrary bytes (not containing the tag) may precede a chunk
+        out += TAG_EVENTS + struct.pack('<Q', 8 + 64 * len(recs)) + bytes(8) + b''.join(recs)
+    for bi, (kind, payload) in enumerate(blocks):
+        out += TAGS[kind] + struct.pack('<Q', len(payload)) + payload
+        # chunks are padded to 8 bytes; only the very last one may lack its padding (end of file)
+        if aligned or bi < len(blocks) - 1:
+            out += bytes((-(8 + len(payload))) % 8)
+    return out
